@@ -52,6 +52,8 @@ type partial struct {
 
 // Run is the state of one check run.
 type Run struct {
+	lastProgress time.Time
+	doing        string
 	ID      string
 	Level   string
 	Tier    string
@@ -208,7 +210,45 @@ func (r *Run) Note(f string, a ...interface{}) {
 func (r *Run) Count(name string, n int64) {
 	r.mu.Lock()
 	r.p.Counters[name] += n
+	r.lastProgress = time.Now()
 	r.mu.Unlock()
+}
+
+// Doing records what the harness is about to execute (named in a stall report).
+func (r *Run) Doing(what string) {
+	r.mu.Lock()
+	r.doing = what
+	r.lastProgress = time.Now()
+	r.mu.Unlock()
+}
+
+// StallIsViolation arms a watchdog: when no counter moves for d, the code under test has stopped
+// answering (a call that never returns: a leaked lock, a loop that stopped serving). The stall is
+// recorded as a violation with the given fingerprint, the goroutines are dumped to
+// .work/<id>/stall-*.txt, and the run is finished at once (the stuck call cannot be interrupted).
+func (r *Run) StallIsViolation(d time.Duration, fingerprint string) {
+	r.mu.Lock()
+	r.lastProgress = time.Now()
+	r.mu.Unlock()
+	go func() {
+		for {
+			time.Sleep(d / 4)
+			r.mu.Lock()
+			idle := time.Since(r.lastProgress)
+			doing := r.doing
+			r.mu.Unlock()
+			if idle < d {
+				continue
+			}
+			buf := make([]byte, 1<<20)
+			buf = buf[:runtime.Stack(buf, true)]
+			dir := filepath.Join(Root(), ".work", strings.ToLower(r.ID))
+			os.MkdirAll(dir, 0o755)
+			os.WriteFile(filepath.Join(dir, fmt.Sprintf("stall-%d.txt", os.Getpid())), buf, 0o644)
+			r.Violate(fingerprint, fmt.Sprintf("the call did not return within %s: %s", d, doing), map[string]interface{}{"stalled": doing}, nil)
+			r.Finish()
+		}
+	}()
 }
 
 // Counter reads a counter.
